@@ -8,7 +8,6 @@ import (
 	"context"
 	"fmt"
 	"os"
-	"runtime"
 	"sync"
 	"syscall"
 	"time"
@@ -202,9 +201,6 @@ func c11One(probe, root string, c c11Case) c11Obs {
 	t0 := time.Now()
 	ch := make(chan opResult, 1)
 	go func() {
-		if c.Runner == "ptrace" {
-			runtime.LockOSThread()
-		}
 		ch <- run(ctx)
 	}()
 	var r opResult
